@@ -89,6 +89,7 @@ Proof.
     destruct (write_offset _ _ _); exact I.
   - (* OBind *)
     destruct (nth_error (labels s) l) as [[v|]|] eqn:El; try exact I.
+    destruct (bind_precheck l (cur s) (s_len (cur_sec s)) (pending s) (refs s)); cbn [negb]; cbv iota; [|exact I].
     unfold bind_rel. simpl. destruct I as [N L A].
     set (lbls' := upd (labels s) l (Some (cur s, s_len (cur_sec s)))).
     assert (M : label_mono (labels s) lbls') by (apply label_mono_upd; exact El).
